@@ -97,7 +97,9 @@ func (o *sessionTracker) RemoteLogin(rul common.RemoteUserLogin) error {
 	var found bool
 	var writeErr error
 	o.sessIDsToUsers.Iterate(func(asi string, u *user) bool {
-		if u.srcPID == rul.PID {
+		// A session that already has a login belongs to an earlier
+		// process with the same (reused) PID.
+		if u.srcPID == rul.PID && !u.hasRUL {
 			if debugLogger != nil {
 				debugLogger.With(
 					"auditSessionID", asi,
@@ -111,8 +113,23 @@ func (o *sessionTracker) RemoteLogin(rul common.RemoteUserLogin) error {
 			// since it's thread-safe (i.e., it's a pointer).
 			u.setRemoteUserLoginInfo(rul)
 
+			// A short session may have ended before its login arrived.
+			// Releasing the cached AUDIT_CRED_DISP event ends it here.
+			sessionEnded := false
+			for _, cachedEvent := range u.cached {
+				if cachedEvent.Type == auparse.AUDIT_CRED_DISP {
+					sessionEnded = true
+					break
+				}
+			}
+
 			found = true
 			writeErr = u.writeAndClearCache(o.eventWriter)
+			if sessionEnded && writeErr == nil {
+				// Safe: Iterate holds the map's lock.
+				o.sessIDsToUsers.DeleteUnsafe(asi)
+			}
+
 			// stop iteration
 			return false
 		}
